@@ -31,30 +31,42 @@ def concretise(c, rnd):
         return f'<svg><{k} id="s" {pos} wh="2 4" {d}/></svg>'
     if f == "reusepos":
         tk = c["tkind"]
+        if tk == "circle" and c["w"] != c["h"]:
+            tk = "ellipse"
         w, h = q(c["w"]), q(c["h"])
         tpl = {"rect": f'<rect id="t" wh="{w} {h}"/>', "circle": f'<circle id="t" r="{q(c["w"] / 2)}"/>',
                "ellipse": f'<ellipse id="t" rx="{q(c["w"] / 2)}" ry="{q(c["h"] / 2)}"/>',
                "g": f'<g id="t"><rect wh="{w} {h}"/></g>', "symbol": f'<symbol id="t"><rect wh="{w} {h}"/></symbol>'}[tk]
         an = c["anchor"]
         xs, ys = q(c["x"]), q(c["y"])
-        if an == "tl":
-            pos = rnd.choice([f'x="{xs}" y="{ys}"', f'xy="{xs} {ys}"', f'xy="{xs} {ys}" xy-loc="tl"'])
-        elif an == "c":
-            pos = rnd.choice([f'cxy="{xs} {ys}"', f'cx="{xs}" cy="{ys}"', f'xy="{xs} {ys}" xy-loc="c"'])
-        elif an == "br":
-            pos = rnd.choice([f'x2="{xs}" y2="{ys}"', f'xy2="{xs} {ys}"', f'xy="{xs} {ys}" xy-loc="br"'])
+        base = ""
+        if c["via"] == "dir":
+            base = f'<rect id="b" x="{xs}" y="{ys}" width="1" height="1"/>'
+            pos = f'xy="#b|{an} 1"'
         else:
-            pos = f'xy="{xs} {ys}" xy-loc="{an}"'
+            if c["via"] == "loc":
+                base = f'<rect id="b" x="{xs}" y="{ys}" width="1" height="1"/>'
+                xs, ys, both = None, None, "#b@tl"
+            else:
+                both = f"{xs} {ys}"
+            if an == "tl":
+                pos = rnd.choice([f'xy="{both}"', f'xy="{both}" xy-loc="tl"'] + ([f'x="{xs}" y="{ys}"'] if xs else []))
+            elif an == "c":
+                pos = rnd.choice([f'cxy="{both}"', f'xy="{both}" xy-loc="c"'] + ([f'cx="{xs}" cy="{ys}"'] if xs else []))
+            elif an == "br":
+                pos = rnd.choice([f'xy2="{both}"', f'xy="{both}" xy-loc="br"'] + ([f'x2="{xs}" y2="{ys}"'] if xs else []))
+            else:
+                pos = f'xy="{both}" xy-loc="{an}"'
         use = f'<reuse id="s" href="#t" {pos}/>'
         if c["where"] == "specs":
-            return f"<svg><specs>{tpl}</specs>{use}</svg>"
+            return f"<svg>{base}<specs>{tpl}</specs>{use}</svg>"
         if c["where"] == "defs":
             if tk not in ("g", "symbol"):
-                return f"<svg><specs>{tpl}</specs><rect wh=\"1\"/>{use}</svg>"
-            return f"<svg><defs>{tpl}</defs>{use}</svg>"
+                return f"<svg><specs>{tpl}</specs>{base}{use}</svg>"
+            return f"<svg><defs>{tpl}</defs>{base}{use}</svg>"
         if c["where"] == "inline-before":
-            return f"<svg>{tpl}{use}</svg>"
-        return f"<svg>{use}{tpl}</svg>"
+            return f"<svg>{tpl}{base}{use}</svg>"
+        return f"<svg>{base}{use}{tpl}</svg>"
     r = geom.ref_element(c["refkind"], c["ref"])
     ref = rnd.choice(["#r", "^"])
     k = c["kind"]
@@ -105,12 +117,36 @@ def instance_bbox(el, case):
     return (x, y, x + w, y + h)
 
 
+def rel_check(c, resp):
+    form = c["case"]["form"]
+    if resp["status"] != "ok":
+        return (f"rel:{form}:not-ok", f"transform failed: {resp.get('err')}")
+    el = geom.find_by_id(resp["out"], "s")
+    if el is None:
+        return (f"rel:{form}:missing", "subject not in output")
+    if form == "reusepos":
+        bb = instance_bbox(el, c["case"])
+        if bb is None or not geom.box_close(bb, c["case"]["exp"]):
+            return ("rel:reusepos:geometry", f"instance rendered as {el.name} {dict(el.attrs)}; expected its box at "
+                                             f"{ {k: v / 4 for k, v in c['case']['exp'].items()} }")
+        if "t" not in el.classes():
+            return ("rel:reusepos:class", f"instance lacks the target's id as class: {dict(el.attrs)}")
+        return None
+    if not geom.box_close(geom.el_bbox(el), c["case"]["exp"]):
+        return (f"rel:{form}:geometry", f"subject rendered as {el.name} {dict(el.attrs)}; the reference rules give box "
+                                        f"{ {k: v / 4 for k, v in c['case']['exp'].items()} }")
+    bad = geom.residue(el)
+    if bad:
+        return (f"rel:{form}:residue", f"attributes left behind: {bad}")
+    return None
+
+
 def run(rep, tier, seed):
     rnd = random.Random(seed)
     rep.assumptions += ["reference boxes / sizes / gaps are drawn from a bounded grid of quarter units (negative values included)",
                         "h/v placement only against elements with a bounding box; scalar kinds r/rx/ry excluded"]
     recs = geom.run_geom_family(rep, "rel", tier, ["RelIdentities"])
-    limit = 8000 if tier == "quick" else len(recs)
+    limit = 12000 if tier == "quick" else len(recs)
     if len(recs) > limit:
         by = {}
         for c in recs:
@@ -124,29 +160,7 @@ def run(rep, tier, seed):
         xml = concretise(c, random.Random(rnd.random()))
         cases.append({"k": f"c09-{j}", "xml": xml, "case": c, "key": xml})
 
-    def check(c, resp):
-        form = c["case"]["form"]
-        if resp["status"] != "ok":
-            return (f"rel:{form}:not-ok", f"transform failed: {resp.get('err')}")
-        el = geom.find_by_id(resp["out"], "s")
-        if el is None:
-            return (f"rel:{form}:missing", "subject not in output")
-        if form == "reusepos":
-            bb = instance_bbox(el, c["case"])
-            if bb is None or not geom.box_close(bb, c["case"]["exp"]):
-                return ("rel:reusepos:geometry", f"instance rendered as {el.name} {dict(el.attrs)}; expected its box at "
-                                                 f"{ {k: v / 4 for k, v in c['case']['exp'].items()} }")
-            if "t" not in el.classes():
-                return ("rel:reusepos:class", f"instance lacks the target's id as class: {dict(el.attrs)}")
-            return None
-        if not geom.box_close(geom.el_bbox(el), c["case"]["exp"]):
-            return (f"rel:{form}:geometry", f"subject rendered as {el.name} {dict(el.attrs)}; the reference rules give box "
-                                            f"{ {k: v / 4 for k, v in c['case']['exp'].items()} }")
-        bad = geom.residue(el)
-        if bad:
-            return (f"rel:{form}:residue", f"attributes left behind: {bad}")
-        return None
-    geom.run_and_compare(rep, cases, check, "c09")
+    geom.run_and_compare(rep, cases, rel_check, "c09")
     forms = {}
     for c in recs:
         forms[c["form"]] = forms.get(c["form"], 0) + 1
